@@ -108,7 +108,7 @@ func Props(c *Ctx) map[string]*Prop {
 	add(&Prop{ID: "C18",
 		Explanation: "Decides purity, determinism and error reporting of the printer structurally: its only AST writes are the hide/undo idiom and every hide is undone by a deferred closure on all paths (PU1); nothing reachable from Fprint is a source of nondeterminism (PU2); all output goes through one buffered writer whose sticky error is returned through print, Config.Fprint and Fprint (EF5); here-document frames are balanced (PU8); the positions it consults are counted in characters (BR1, TB5) and nothing reachable from Fprint can panic (PF1). That the output is a fix-point of print∘parse is a value-level property and is not decided.",
 		Assumptions: []string{"bufio.Writer's sticky-error contract"},
-		Rules: []Rule{rulePR1(), rulePU1(), rulePU2(), ruleEF5(), rulePU8(), rulePU8b(), ruleLV1(), ruleNG1("printer"), ruleBR1(), ruleTB5(), ruleGR1("parser"), ruleGR3(),
+		Rules: []Rule{rulePR4(), rulePR1(), rulePU1(), rulePU2(), ruleEF5(), rulePU8(), rulePU8b(), ruleLV1(), ruleNG1("printer"), ruleBR1(), ruleTB5(), ruleGR1("parser"), ruleGR3(),
 			pf1Rule("no index, slice or type-assertion site reachable from Fprint can panic", 20,
 				func(c *Ctx) (map[*core.Func]bool, map[*core.Func]bool) {
 					return c.scopeOf("printer.Fprint", "printer.(*Config).Fprint"), nil
@@ -118,7 +118,7 @@ func Props(c *Ctx) map[string]*Prop {
 		Rules:       []Rule{rulePU5b(), rulePU3(), rulePU4(), rulePU6(), rulePU9(), ruleTB8(), ruleGR1("interp"), ruleNG1("interp"), rulePP1(), rulePU10()}})
 	add(&Prop{ID: "C05",
 		Explanation: "Decides only side conditions of the print/parse round trip: every semantic AST field and every Config field is read by the printer (TB6); pending here-document frames are balanced on every path under every combination of the style bits that guard them (PU8); the operator sets of scanner and expander/printer agree (TB10); nil-encoded fields are tested against nil (TB13); the positions the printer consults to space arithmetic tokens are counted in characters and End() adds the width of the stored token (BR1, TB5), and adjacency of two tokens is decided from line and column together (PS1); nothing reachable from Fprint can panic (PF1). Whether printed text re-parses to the same tree is not decidable structurally and is not claimed.",
-		Rules: []Rule{rulePR1(), rulePS2(), ruleTB6(), rulePU8(), rulePU8b(), ruleLV1(), ruleTB10(), ruleTB13(), rulePF3("printer"), ruleBR1(), ruleTB5(), rulePS1("printer", "parser"), ruleGR1("parser"), ruleGR3(),
+		Rules: []Rule{rulePR2(), rulePR3(), rulePR4(), rulePR1(), rulePS2(), ruleTB6(), rulePU8(), rulePU8b(), ruleLV1(), ruleTB10(), ruleTB13(), rulePF3("printer"), ruleBR1(), ruleTB5(), rulePS1("printer", "parser"), ruleGR1("parser"), ruleGR3(),
 			pf1Rule("no index, slice or type-assertion site reachable from Fprint can panic", 20,
 				func(c *Ctx) (map[*core.Func]bool, map[*core.Func]bool) {
 					return c.scopeOf("printer.Fprint", "printer.(*Config).Fprint"), nil
@@ -133,17 +133,17 @@ func Props(c *Ctx) map[string]*Prop {
 				}), rulePU10(), ruleQU3(), ruleSM1()}})
 	add(&Prop{ID: "C02",
 		Explanation: "Decides only side conditions of 'every grammatical program is accepted': the compiled tables and actions are goyacc's output for the checked-in grammar (GR1), which is conflict-free (GR2); every nonterminal carries the dynamic types its consumers assert and the lists they index are non-empty (GR3); lexer tables and grammar agree on the terminal alphabet and every operator is scanned under its own spelling (GR6, TB9a); a reserved word is translated at every dispatch a raw word can reach (RC5); every closer pushed on the nesting stack is matched somewhere (RC6). That the context-driven lexer hands the right token class in every state, and that the grammar is POSIX's, are language-level claims and are not decided.",
-		Rules:       []Rule{ruleQB1(), ruleUR1(), ruleSIB1(), ruleHD9(), ruleBQ1(), ruleCM3(), ruleGR7(), ruleGR1("parser"), ruleGR2("parser"), ruleGR3(), ruleGR6(), ruleTB9a("parser", "parser.(*lexer).scanOp", 8), ruleRC5(), ruleRC6(), ruleRC7(), ruleTK("TK1", "TK2"), ruleHD()}})
+		Rules:       []Rule{ruleHD10(), ruleCM6(), ruleQB1(), ruleUR1(), ruleSIB1(), ruleHD9(), ruleBQ1(), ruleCM3(), ruleGR7(), ruleGR1("parser"), ruleGR2("parser"), ruleGR3(), ruleGR6(), ruleTB9a("parser", "parser.(*lexer).scanOp", 8), ruleRC5(), ruleRC6(), ruleRC7(), ruleTK("TK1", "TK2"), ruleHD()}})
 	add(&Prop{ID: "C04",
 		Explanation: "Decides that columns are counted in characters at every site that manufactures a position (taint from byte lengths/offsets to NewPos, shift and the cursor, BR1) and that End() adds the width of the token actually stored in the field (TB5). That each fixed offset equals the number of characters read since the documented character, containment and ordering of positions are value-level and not decided.",
 		Assumptions: []string{"operator and reserved-word spellings are ASCII (checked against the tables)", "Comment.End is excluded by the property's text"},
 		Rules:       []Rule{ruleUR1(), ruleNL2(), ruleLB3(), ruleESC3(), ruleESC2(), rulePS2(), ruleBR1(), ruleTB5(), ruleGR1("parser"), ruleLX("PO1"), ruleRD1(), ruleSRC2(), ruleCM3(), ruleMK1(), ruleLBK()}})
 	add(&Prop{ID: "C07",
 		Explanation: "Decides a necessary condition of 'one call, one command': the newline that ends a command is never consumed silently — the newline-swallowing scanner is called only at grammar linebreak positions and never from the raw token scanner (RC4); and the reader is only touched by read/unread so look-ahead is undone through one place (EF1). Where exactly a command ends is language-level and not decided.",
-		Rules:       []Rule{rulePU3(), ruleCM3(), ruleTL1(), ruleLBK(), ruleHD9(), rulePS2(), ruleRC4(), ruleRC7(), ruleEF1(), ruleCC2("parser"), ruleHD(), ruleLX("HD1b"), ruleTK("SRC1"), ruleSRC2(), ruleNG1("parser")}})
+		Rules:       []Rule{ruleHD10(), rulePU3(), ruleCM3(), ruleTL1(), ruleLBK(), ruleHD9(), rulePS2(), ruleRC4(), ruleRC7(), ruleEF1(), ruleCC2("parser"), ruleHD(), ruleLX("HD1b"), ruleTK("SRC1"), ruleSRC2(), ruleNG1("parser")}})
 	add(&Prop{ID: "C08",
 		Explanation: "Decides the structure of here-document handling: announce/push/pop protocol and FIFO order (CC6), no look-ahead needed to push (GR4 with GR1), operator-dependent delimiter search, literal body iff the delimiter of that very here-document was quoted, delimiter only at column 1 (HD), every state that emits a redirection operator counts an announced here-document (HD6), no panic in the body reader (PF1). Byte-exact bodies and delimiter matching after quote removal are value-level and not decided.",
-		Rules: []Rule{ruleESC3(), ruleESC2(), ruleCC14("parser"), ruleHD9(), rulePS2(), ruleCC6(), ruleGR1("parser"), ruleGR4(), ruleHD(), ruleHD6(), ruleHD7(), ruleLBK(), ruleSRC2(), ruleLX("HD1b", "HD5"),
+		Rules: []Rule{ruleHD10(), ruleESC3(), ruleESC2(), ruleCC14("parser"), ruleHD9(), rulePS2(), ruleCC6(), ruleGR1("parser"), ruleGR4(), ruleHD(), ruleHD6(), ruleHD7(), ruleLBK(), ruleSRC2(), ruleLX("HD1b", "HD5"),
 			pf1Rule("no index/slice/assertion in the here-document reader can panic", 3,
 				func(c *Ctx) (map[*core.Func]bool, map[*core.Func]bool) {
 					s := map[*core.Func]bool{}
